@@ -200,6 +200,40 @@ def mentions(fields, tname):
     return any(f[0] == 'field' and walk(f[2]) for f in fields)
 
 
+_REFS_MEMO = {}
+
+
+def may_have_refs(db, tname, _stack=None):
+    """can a value of type `tname` own cell references (a ^X field, a dictionary, Cell/Any, an Either of a reference ...)?  Unknown types: no."""
+    key = (id(db), tname)
+    if key in _REFS_MEMO:
+        return _REFS_MEMO[key]
+    _stack = _stack or set()
+    if tname in _stack:
+        return False
+    _stack = _stack | {tname}
+
+    def walk(e):
+        if isinstance(e, tuple):
+            if e and e[0] == 'ref':
+                return True
+            if len(e) == 2 and e[0] == 'id':
+                n = e[1]
+                if n in ('Cell', 'Any', 'HashmapE', 'Hashmap', 'HashmapAugE', 'HashmapAug', 'BinTree', 'BinTreeAug'):
+                    return True
+                if n in db.types:
+                    return may_have_refs(db, n, _stack)
+                return False
+            return any(walk(x) for x in e[1:])
+        if isinstance(e, list):
+            return any(walk(x) for x in e)
+        return False
+    r = any(f[0] == 'field' and walk(f[2]) for d in db.types.get(tname, []) for f in d['fields'])
+    if len(_stack) == 1:
+        _REFS_MEMO[key] = r
+    return r
+
+
 def field_names(con):
     out = []
 
@@ -854,6 +888,13 @@ def install_modular(it, db, classmap, root_class, leftovers=None):
                         have = [a.v for a in args[2:] if isinstance(a, K) and isinstance(a.v, int) and not isinstance(a.v, bool)]
                         if want and have and want[:len(have)] != have[:len(want)]:
                             raise Mismatch(f'{cls.name}.deserialize is called with argument(s) {have} where the schema has {t.t} {want}')
+                        # references are taken in stream order: a value that can own references must not be parsed while an earlier
+                        # reference field of the schema is still pending (it would take that field's cell)
+                        if may_have_refs(db, t.t):
+                            pend = [x for x in sl.toks[:i] if x.kind == 'REF']
+                            if pend:
+                                raise Mismatch(f'{cls.name}.deserialize ({t.name or t.t}) is parsed while the earlier reference field '
+                                               f'`{pend[0].name or "^[...]"}` is still unread: a reference owned by {t.t} would be taken from the wrong position')
                         sl.toks.pop(i)
                         sl.trace.append((f'{cls.name}.deserialize', repr(t)))
                         left = leftovers.get(cls.name)
